@@ -1,89 +1,127 @@
 -------------------------------- MODULE Pipe2 --------------------------------
-(* Check-mode pipeline at the granularity of the hook events.  Contents are    *)
-(* abstracted to counts; every blocking operation is split into its check and  *)
-(* its completion so that recorded executions can be matched step by step.     *)
+(* The thread / channel pipeline of fastPASTA at the granularity of the hook   *)
+(* events: reader R, analysis+dispatcher A, one validator V per dispatch id,    *)
+(* writer W, main M (process(): hands over / drops its receiver, forwards the   *)
+(* scanner's statistics, joins), collector C; the stop flag.                    *)
+(*                                                                              *)
+(* Mode: "check" (A dispatches to validators), "view" (A prints), "write" (W    *)
+(* consumes the batches, no A), "none" (nobody consumes).                       *)
+(*                                                                              *)
+(* Contents are abstracted to counts.  Every blocking operation is split into   *)
+(* its parts so that recorded executions can be matched step by step:           *)
+(*   send   = start (logged before the call) ; enqueue or failure (silent) ;    *)
+(*            done / fail (logged after)                                        *)
+(*   recv   = dequeue (silent: frees a slot a blocked sender may use at once) ; *)
+(*            the event logged after it                                         *)
+(* Model checked (MC_Pipe2: deadlock freedom, termination, every worker joined, *)
+(* the writer's output is whole batches) and used for trace validation of the   *)
+(* hooked binary (Trace_Pipe2, with the real capacities).                       *)
 EXTENDS Naturals, Sequences, FiniteSets, TLC
 
-CONSTANTS ReaderCap, ValCap0         \* real: 100 and 128 (first validator ValCap0, k-th (k >= 2): ValCap0 * 2^min(k,7); validator_dispatcher.rs:84-113)
-VARIABLES rpc, rlen,                 \* reader: "check" | "sending" | "done"; length of the batch being sent
-          qRA,                       \* queue of batch lengths
-          rcvMain, rcvA,             \* live receiver handles of the reader channel
-          apc, arem,                 \* analysis: "check" | "recv" | "batch" | "join" | "done"; packets left in batch
-          vorder,                    \* links in spawn order (fixes the capacity of each validator channel)
-          qV, vSend, vpc,            \* per link: queue length, dispatcher's sender alive, validator "loop" | "busy" | "done"
-          mpc,                       \* main: "drop" | "forward" | "joinR" | "joinA" | "ret" | "done"
-          cpc, stop
-vars == << rpc, rlen, qRA, rcvMain, rcvA, apc, arem, vorder, qV, vSend, vpc, mpc, cpc, stop >>
+CONSTANTS ReaderCap, ValCap0,        \* real: 100 and 128 (first validator ValCap0, k-th (k >= 2): ValCap0 * 2^min(k,7); validator_dispatcher.rs:84-113)
+          Mode,
+          MainKeepsReceiver          \* FALSE = as coded. TRUE = the defect "process() keeps its receiver handle until it returns" (lib.rs:196-220 warns
+                                     \* against it): kept as a switch so that the model checker SHOWS the deadlock it causes (MC_Pipe2_mutant)
+VARIABLES rpc, rlen,                 \* reader: "check" | "sending" | "sent" | "done"; length of the batch being sent
+          qRA,                       \* queue of batch lengths (reader -> analysis / writer)
+          rcvMain, rcvA, rcvW,       \* live receiver handles of that channel
+          apc, arem,                 \* analysis: "check" | "recv" | "taken" | "batch" | "sending" | "join" | "joining" | "done"; packets left in batch
+          vorder,                    \* dispatch ids in spawn order (fixes the capacity of each validator channel)
+          qV, vSend, vpc,            \* per id: queue length, dispatcher's sender alive, validator "loop" | "taken" | "busy" | "done"
+          wpc, wout,                 \* writer: "recv" | "taken" | "got" | "done"; number of whole batches pushed to the output buffer
+          mpc,                       \* main: "drop" | "forward" | "joinA" | "done"
+          cpc, stop,
+          asend                      \* the id the dispatcher is sending to
+vars == << rpc, rlen, qRA, rcvMain, rcvA, rcvW, apc, arem, vorder, qV, vSend, vpc, wpc, wout, mpc, cpc, stop >>
+allvars == << vars, asend >>
 
+HasA == Mode \in {"check", "view"}
+HasW == Mode = "write"
 Spawned == {vorder[i] : i \in 1..Len(vorder)}
 CapOf(l) == LET k == CHOOSE i \in 1..Len(vorder) : vorder[i] = l IN IF k = 1 THEN ValCap0 ELSE ValCap0 * (2 ^ (IF k < 7 THEN k ELSE 7))
 Fn(S, v) == [x \in S |-> v]
 Ext(f, k, v) == [x \in DOMAIN f \cup {k} |-> IF x = k THEN v ELSE f[x]]
+AnyReceiver == rcvMain \/ rcvA \/ rcvW
 
-Init == /\ rpc = "check" /\ rlen = 0 /\ qRA = << >> /\ rcvMain = TRUE /\ rcvA = TRUE
-        /\ apc = "check" /\ arem = 0 /\ vorder = << >> /\ qV = Fn({}, 0) /\ vSend = Fn({}, FALSE) /\ vpc = Fn({}, "loop")
+Init == /\ rpc = "check" /\ rlen = 0 /\ qRA = << >> /\ rcvMain = TRUE /\ rcvA = HasA /\ rcvW = HasW
+        /\ apc = (IF HasA THEN "check" ELSE "done") /\ arem = 0 /\ vorder = << >> /\ qV = Fn({}, 0) /\ vSend = Fn({}, FALSE) /\ vpc = Fn({}, "loop")
+        /\ wpc = (IF HasW THEN "recv" ELSE "done") /\ wout = 0
         /\ mpc = "drop" /\ cpc = "loop" /\ stop = FALSE
 
 U(v) == UNCHANGED v
 \* ---------- reader ----------
-RCheckStop == rpc = "check" /\ stop /\ rpc' = "done" /\ U(<< rlen, qRA, rcvMain, rcvA, apc, arem, vorder, qV, vSend, vpc, mpc, cpc, stop >>)
+RCheckStop == rpc = "check" /\ stop /\ rpc' = "done" /\ U(<< rlen, qRA, rcvMain, rcvA, rcvW, apc, arem, vorder, qV, vSend, vpc, wpc, wout, mpc, cpc, stop >>)
 RSendStart(n) == rpc = "check" /\ rpc' = "sending" /\ rlen' = n          \* (the stop check that preceded it is not observable)
-                 /\ U(<< qRA, rcvMain, rcvA, apc, arem, vorder, qV, vSend, vpc, mpc, cpc, stop >>)
-REnqueue == rpc = "sending" /\ (rcvMain \/ rcvA) /\ Len(qRA) < ReaderCap
+                 /\ U(<< qRA, rcvMain, rcvA, rcvW, apc, arem, vorder, qV, vSend, vpc, wpc, wout, mpc, cpc, stop >>)
+REnqueue == rpc = "sending" /\ AnyReceiver /\ Len(qRA) < ReaderCap
             /\ qRA' = Append(qRA, rlen) /\ rpc' = "sent"
-            /\ U(<< rlen, rcvMain, rcvA, apc, arem, vorder, qV, vSend, vpc, mpc, cpc, stop >>)
+            /\ U(<< rlen, rcvMain, rcvA, rcvW, apc, arem, vorder, qV, vSend, vpc, wpc, wout, mpc, cpc, stop >>)
 RSendDone(last) == rpc = "sent" /\ rpc' = (IF last THEN "done" ELSE "check")
-                   /\ U(<< rlen, qRA, rcvMain, rcvA, apc, arem, vorder, qV, vSend, vpc, mpc, cpc, stop >>)
-RSendFail == rpc = "sending" /\ ~rcvMain /\ ~rcvA /\ rpc' = "done"
-             /\ U(<< rlen, qRA, rcvMain, rcvA, apc, arem, vorder, qV, vSend, vpc, mpc, cpc, stop >>)
-REofExit == rpc = "check" /\ rpc' = "done" /\ U(<< rlen, qRA, rcvMain, rcvA, apc, arem, vorder, qV, vSend, vpc, mpc, cpc, stop >>)
+                   /\ U(<< rlen, qRA, rcvMain, rcvA, rcvW, apc, arem, vorder, qV, vSend, vpc, wpc, wout, mpc, cpc, stop >>)
+\* a blocked (or starting) send fails exactly when every receiver handle is gone
+RSendFail == rpc = "sending" /\ ~AnyReceiver /\ rpc' = "done"
+             /\ U(<< rlen, qRA, rcvMain, rcvA, rcvW, apc, arem, vorder, qV, vSend, vpc, wpc, wout, mpc, cpc, stop >>)
+REofExit == rpc = "check" /\ rpc' = "done" /\ U(<< rlen, qRA, rcvMain, rcvA, rcvW, apc, arem, vorder, qV, vSend, vpc, wpc, wout, mpc, cpc, stop >>)
 \* ---------- analysis ----------
 ACheck == apc = "check" /\ apc' = (IF stop THEN "join" ELSE "recv")
-          /\ U(<< rpc, rlen, qRA, rcvMain, rcvA, arem, vorder, qV, vSend, vpc, mpc, cpc, stop >>)
-\* a receive is two steps: the dequeue (silent: it frees a slot that a blocked sender may use before the receiver has logged anything)
-\* and the event logged after it
+          /\ U(<< rpc, rlen, qRA, rcvMain, rcvA, rcvW, arem, vorder, qV, vSend, vpc, wpc, wout, mpc, cpc, stop >>)
 ATake == apc = "recv" /\ qRA # << >> /\ qRA' = Tail(qRA) /\ arem' = Head(qRA) /\ apc' = "taken"
-         /\ U(<< rpc, rlen, rcvMain, rcvA, vorder, qV, vSend, vpc, mpc, cpc, stop >>)
+         /\ U(<< rpc, rlen, rcvMain, rcvA, rcvW, vorder, qV, vSend, vpc, wpc, wout, mpc, cpc, stop >>)
 ARecv(n) == apc = "taken" /\ arem = n /\ apc' = "batch"
-            /\ U(<< rpc, rlen, qRA, rcvMain, rcvA, arem, vorder, qV, vSend, vpc, mpc, cpc, stop >>)
+            /\ U(<< rpc, rlen, qRA, rcvMain, rcvA, rcvW, arem, vorder, qV, vSend, vpc, wpc, wout, mpc, cpc, stop >>)
 ARecvDisc == apc = "recv" /\ qRA = << >> /\ rpc = "done" /\ apc' = "join"
-             /\ U(<< rpc, rlen, qRA, rcvMain, rcvA, arem, vorder, qV, vSend, vpc, mpc, cpc, stop >>)
-ASpawn(l) == apc = "batch" /\ arem > 0 /\ l \notin Spawned
+             /\ U(<< rpc, rlen, qRA, rcvMain, rcvA, rcvW, arem, vorder, qV, vSend, vpc, wpc, wout, mpc, cpc, stop >>)
+\* view mode: the batch is printed (a write error becomes a fatal message to the collector: the collector raises the stop flag)
+AView == Mode = "view" /\ apc = "batch" /\ apc' = "check" /\ arem' = 0
+         /\ U(<< rpc, rlen, qRA, rcvMain, rcvA, rcvW, vorder, qV, vSend, vpc, wpc, wout, mpc, cpc, stop >>)
+\* check mode: packet by packet to the validator of its id
+ASpawn(l) == Mode = "check" /\ apc = "batch" /\ arem > 0 /\ l \notin Spawned
              /\ vorder' = Append(vorder, l) /\ qV' = Ext(qV, l, 0) /\ vSend' = Ext(vSend, l, TRUE) /\ vpc' = Ext(vpc, l, "loop")
-             /\ U(<< rpc, rlen, qRA, rcvMain, rcvA, apc, arem, mpc, cpc, stop >>)
-ADispatchStart(l) == apc = "batch" /\ arem > 0 /\ l \in Spawned /\ apc' = "sending"
-                     /\ U(<< rpc, rlen, qRA, rcvMain, rcvA, arem, vorder, qV, vSend, vpc, mpc, cpc, stop >>)
-\* the enqueue into the validator channel (silent); which link is being sent to is carried in `arem`'s companion below
-VARIABLE asend
-allvars == << vars, asend >>
+             /\ U(<< rpc, rlen, qRA, rcvMain, rcvA, rcvW, apc, arem, wpc, wout, mpc, cpc, stop >>)
+ADispatchStart(l) == Mode = "check" /\ apc = "batch" /\ arem > 0 /\ l \in Spawned /\ apc' = "sending"
+                     /\ U(<< rpc, rlen, qRA, rcvMain, rcvA, rcvW, arem, vorder, qV, vSend, vpc, wpc, wout, mpc, cpc, stop >>)
 ADispatchStartL(l) == ADispatchStart(l) /\ asend' = l
 AEnqueue == apc = "sending" /\ qV[asend] < CapOf(asend)
             /\ qV' = [qV EXCEPT ![asend] = @ + 1] /\ arem' = arem - 1
             /\ apc' = (IF arem - 1 = 0 THEN "check" ELSE "batch")
-            /\ U(<< rpc, rlen, qRA, rcvMain, rcvA, vorder, vSend, vpc, mpc, cpc, stop, asend >>)
+            /\ U(<< rpc, rlen, qRA, rcvMain, rcvA, rcvW, vorder, vSend, vpc, wpc, wout, mpc, cpc, stop, asend >>)
 AJoinStart == apc = "join" /\ vSend' = [l \in DOMAIN vSend |-> FALSE] /\ apc' = "joining"
-              /\ U(<< rpc, rlen, qRA, rcvMain, rcvA, arem, vorder, qV, vpc, mpc, cpc, stop >>)
+              /\ U(<< rpc, rlen, qRA, rcvMain, rcvA, rcvW, arem, vorder, qV, vpc, wpc, wout, mpc, cpc, stop >>)
 AExit == apc = "joining" /\ (\A l \in Spawned : vpc[l] = "done") /\ apc' = "done" /\ rcvA' = FALSE
-         /\ U(<< rpc, rlen, qRA, rcvMain, arem, vorder, qV, vSend, vpc, mpc, cpc, stop >>)
+         /\ U(<< rpc, rlen, qRA, rcvMain, rcvW, arem, vorder, qV, vSend, vpc, wpc, wout, mpc, cpc, stop >>)
 \* ---------- validators ----------
 VTake(l) == l \in Spawned /\ vpc[l] \in {"loop", "busy"} /\ qV[l] > 0 /\ qV' = [qV EXCEPT ![l] = @ - 1] /\ vpc' = [vpc EXCEPT ![l] = "taken"]
-            /\ U(<< rpc, rlen, qRA, rcvMain, rcvA, apc, arem, vorder, vSend, mpc, cpc, stop >>)
+            /\ U(<< rpc, rlen, qRA, rcvMain, rcvA, rcvW, apc, arem, vorder, vSend, wpc, wout, mpc, cpc, stop >>)
 VRecv(l) == l \in Spawned /\ vpc[l] = "taken" /\ vpc' = [vpc EXCEPT ![l] = "busy"]
-            /\ U(<< rpc, rlen, qRA, rcvMain, rcvA, apc, arem, vorder, qV, vSend, mpc, cpc, stop >>)
+            /\ U(<< rpc, rlen, qRA, rcvMain, rcvA, rcvW, apc, arem, vorder, qV, vSend, wpc, wout, mpc, cpc, stop >>)
 VExit(l) == l \in Spawned /\ vpc[l] \in {"loop", "busy"} /\ qV[l] = 0 /\ ~vSend[l] /\ vpc' = [vpc EXCEPT ![l] = "done"]
-            /\ U(<< rpc, rlen, qRA, rcvMain, rcvA, apc, arem, vorder, qV, vSend, mpc, cpc, stop >>)
+            /\ U(<< rpc, rlen, qRA, rcvMain, rcvA, rcvW, apc, arem, vorder, qV, vSend, wpc, wout, mpc, cpc, stop >>)
+\* ---------- writer (write/lib.rs:21-40): receive; if the stop flag is up leave (the batch just received is dropped whole); else push it ----------
+WTake == wpc = "recv" /\ qRA # << >> /\ qRA' = Tail(qRA) /\ wpc' = "taken"
+         /\ U(<< rpc, rlen, rcvMain, rcvA, rcvW, apc, arem, vorder, qV, vSend, vpc, wout, mpc, cpc, stop >>)
+WRecv == wpc = "taken" /\ wpc' = "got"
+         /\ U(<< rpc, rlen, qRA, rcvMain, rcvA, rcvW, apc, arem, vorder, qV, vSend, vpc, wout, mpc, cpc, stop >>)
+WStopBreak == wpc = "got" /\ stop /\ wpc' = "done" /\ rcvW' = FALSE
+              /\ U(<< rpc, rlen, qRA, rcvMain, rcvA, apc, arem, vorder, qV, vSend, vpc, wout, mpc, cpc, stop >>)
+WPushed == wpc = "got" /\ wpc' = "recv" /\ wout' = wout + 1       \* (the stop check that preceded the push is not observable: see Trace_Pipe2)
+           /\ U(<< rpc, rlen, qRA, rcvMain, rcvA, rcvW, apc, arem, vorder, qV, vSend, vpc, mpc, cpc, stop >>)
+WRecvDisc == wpc = "recv" /\ qRA = << >> /\ rpc = "done" /\ wpc' = "done" /\ rcvW' = FALSE
+             /\ U(<< rpc, rlen, qRA, rcvMain, rcvA, apc, arem, vorder, qV, vSend, vpc, wout, mpc, cpc, stop >>)
 \* ---------- main ----------
-MDrop == mpc = "drop" /\ rcvMain' = FALSE /\ mpc' = "forward"
-         /\ U(<< rpc, rlen, qRA, rcvA, apc, arem, vorder, qV, vSend, vpc, cpc, stop >>)
+MDrop == mpc = "drop" /\ rcvMain' = (IF MainKeepsReceiver THEN rcvMain ELSE FALSE) /\ mpc' = "forward"
+         /\ U(<< rpc, rlen, qRA, rcvA, rcvW, apc, arem, vorder, qV, vSend, vpc, wpc, wout, cpc, stop >>)
 MForwardEnd == mpc = "forward" /\ rpc = "done" /\ mpc' = "joinA"
-               /\ U(<< rpc, rlen, qRA, rcvMain, rcvA, apc, arem, vorder, qV, vSend, vpc, cpc, stop >>)
-MJoined == mpc = "joinA" /\ apc = "done" /\ mpc' = "done"
-           /\ U(<< rpc, rlen, qRA, rcvMain, rcvA, apc, arem, vorder, qV, vSend, vpc, cpc, stop >>)
+               /\ U(<< rpc, rlen, qRA, rcvMain, rcvA, rcvW, apc, arem, vorder, qV, vSend, vpc, wpc, wout, cpc, stop >>)
+MJoined == mpc = "joinA" /\ apc = "done" /\ wpc = "done" /\ mpc' = "done" /\ rcvMain' = FALSE
+           /\ U(<< rpc, rlen, qRA, rcvA, rcvW, apc, arem, vorder, qV, vSend, vpc, wpc, wout, cpc, stop >>)
 \* ---------- collector ----------
 AnySender == mpc # "done" \/ apc # "done" \/ \E l \in Spawned : vpc[l] # "done"
 CRecv(setStop) == cpc = "loop" /\ stop' = (stop \/ setStop)
-                  /\ U(<< rpc, rlen, qRA, rcvMain, rcvA, apc, arem, vorder, qV, vSend, vpc, mpc, cpc >>)
+                  /\ U(<< rpc, rlen, qRA, rcvMain, rcvA, rcvW, apc, arem, vorder, qV, vSend, vpc, wpc, wout, mpc, cpc >>)
 CClosed == cpc = "loop" /\ ~AnySender /\ cpc' = "done"
-           /\ U(<< rpc, rlen, qRA, rcvMain, rcvA, apc, arem, vorder, qV, vSend, vpc, mpc, stop >>)
-ExtStop == ~stop /\ stop' = TRUE /\ U(<< rpc, rlen, qRA, rcvMain, rcvA, apc, arem, vorder, qV, vSend, vpc, mpc, cpc >>)
+           /\ U(<< rpc, rlen, qRA, rcvMain, rcvA, rcvW, apc, arem, vorder, qV, vSend, vpc, wpc, wout, mpc, stop >>)
+\* the stop flag raised from outside the pipeline: a signal at any instant (the error cap and fatal errors raise it through CRecv)
+ExtStop == ~stop /\ stop' = TRUE /\ U(<< rpc, rlen, qRA, rcvMain, rcvA, rcvW, apc, arem, vorder, qV, vSend, vpc, wpc, wout, mpc, cpc >>)
+
+AllDone == rpc = "done" /\ apc = "done" /\ wpc = "done" /\ mpc = "done" /\ cpc = "done" /\ \A l \in Spawned : vpc[l] = "done"
 ===============================================================================
